@@ -119,3 +119,23 @@ reg(Check("C18", "fault_enumeration",
           technique="exhaustive fault-point enumeration over the real code with an injected driver",
           engine="E5 sqlfake", claimed=False,
           parts=[Part("sqlfaults", "server/db/mysql", "^TestVerifC18", tags="mysql", gomaxprocs=4)]))
+
+SRV = "server"
+reg(Check("C01", "model_checking",
+          "schedules: every interleaving of the session read loops, topic actor, hub, user cache and write loops of 3 scenarios "
+          "(3 publishers on a group; 2x2 publishes member vs root-on-behalf; 2 publishers on p2p) up to the deviation bound "
+          "(quick 1, thorough 2-3), plus idle-unload racing with re-subscribe+publish; crash: a reboot from the store image taken "
+          "before EVERY mutating store call of a 6-request history; fault: EVERY store call of a publish failing once. "
+          "states = executions, transitions = scheduling steps; non-trivial = distinct outcome classes / distinct crash and fault points",
+          ["deviation-bounded: schedules needing more non-default choices than the bound are not explored",
+           "map iteration is made deterministic (sorted) by the instrumenter; the virtual clock advances 1 ms per reading",
+           "memdb is the store contract (transcribed from the MySQL adapter)"],
+          text="Stateless exploration of the real goroutines under a controlled scheduler (iterative deviation bounding), and "
+               "exhaustive crash-point / single-fault enumeration on the real write path over the reference store.",
+          note="trusted: verif-instr rewrite + vsched shim (self-tested), memdb adapter; cluster proxy path not covered",
+          technique="stateless model checking of the implementation (controlled scheduler, deviation bounding) + crash/fault point enumeration",
+          engine="E1 detsched + E3 memdb", claimed=False,
+          parts=[Part("schedules", SRV, "^TestVerifC01Schedules$", instr=True, shards=(8, 16), deadline=(240, 1500)),
+                 Part("reload", SRV, "^TestVerifC01Reload$", instr=True, shards=(4, 8), deadline=(240, 1500)),
+                 Part("crash", SRV, "^TestVerifC01Crash$", instr=True),
+                 Part("fault", SRV, "^TestVerifC01Fault$", instr=True)]))
